@@ -178,6 +178,17 @@ def _find_hanging_module(rustc, so, src, out_dir):
     return m.group(1) if m else None
 
 
+def _pool_files(kw):
+    """The corpus and the directed seeds as the native run extracted / built them (same pool, and
+    ~2 s less per emit-crate process)."""
+    args = []
+    for flag, name in (("--corpus", "corpus.json"), ("--directed", "directed.json")):
+        p = os.path.join(kw.get("native_out", ""), name)
+        if os.path.exists(p):
+            args += [flag, p]
+    return args
+
+
 def engine_r_t(kw, n_inputs, chunks, pool_stride=1):
     """Real host, T1/T3: generated + corpus + directed inputs through the shipped dylib."""
     exe, out, rustc, seed = kw["exe"], kw["out"], kw["rustc"], kw["seed"]
@@ -189,7 +200,7 @@ def engine_r_t(kw, n_inputs, chunks, pool_stride=1):
     files = [os.path.join(d, f"t{c}.rs") for c in range(chunks)]
 
     def emit(c):
-        cmd = [exe, "emit-crate", "--repo", kw["repo"], "--root", str(seed), "--from", "0",
+        cmd = [exe, "emit-crate", "--repo", kw["repo"], *_pool_files(kw), "--root", str(seed), "--from", "0",
                "--n", str(n_inputs), "--out", files[c], "--no-user-compile-error", "--with-pool",
                "--pool-stride", str(pool_stride), "--pool-offset", str(seed % pool_stride),
                "--no-native", "--shard", f"{c}/{chunks}"]
@@ -343,7 +354,7 @@ def engine_r_d(kw, n_inputs, processes, shards=16):
     files = [os.path.join(d, f"d{c}.rs") for c in range(shards)]
 
     def emit(c):
-        r = subprocess.run([exe, "emit-crate", "--repo", kw["repo"], "--root", str(seed), "--n", str(n_inputs),
+        r = subprocess.run([exe, "emit-crate", "--repo", kw["repo"], *_pool_files(kw), "--root", str(seed), "--n", str(n_inputs),
                             "--with-pool", "--ok-only", "--shard", f"{c}/{shards}", "--out", files[c]],
                            env={"PATH": "/usr/bin:/bin"}, capture_output=True, text=True)
         if r.returncode != 0:
@@ -622,7 +633,7 @@ def run_extra(**kw):
         return res
     try:
         if tier == "quick":
-            info, classes, ev = self_proof(kw, sessions=16, job_counts=[kw["jobs"], 3])
+            info, classes, ev = self_proof(kw, sessions=16, job_counts=[kw["jobs"], 6])
             res["engines"]["self_proof"] = info
             res["classes"] += classes
             res["evaluations"] += ev
@@ -631,8 +642,8 @@ def run_extra(**kw):
                                                   "sessions and the first ordinary sessions, each in a cfg'd-out module")
             res["classes"] += classes
             res["evaluations"] += ev
-            info, classes, ev = engine_r_t(kw, n_inputs=0, chunks=max(96, 6 * kw["jobs"]), pool_stride=5)
-            res["engines"]["R-T"] = dict(info, what="corpus and one fifth of the directed seeds, rotating with the seed "
+            info, classes, ev = engine_r_t(kw, n_inputs=0, chunks=max(96, 6 * kw["jobs"]), pool_stride=3)
+            res["engines"]["R-T"] = dict(info, what="corpus and one third of the directed seeds, rotating with the seed "
                                                     "(all of them plus generated inputs in the thorough tier): "
                                                     "shipped dylib (guard off), real proc_macro bridge, real wrappers, stable "
                                                     "rustc --emit=metadata; verdict only on macro panics and message-less "
